@@ -198,7 +198,7 @@ CLAIMED: dict[str, tuple[str, str, str, str]] = {
         "the result of a call after any history equals its result in a fresh process. The models are tied to the code on every run by "
         "replaying the recorded events of the real call_args / cache / _lark objects through the model, and the property itself is "
         "sampled by fresh-process permuted and 2-16-thread runs.",
-        TB + "Partial: purity of the cached functions w.r.t. the recursion stack at first caching and ==/hash congruence (C18) are hypotheses, shown necessary by theorems; GIL atomicity, functools.cache internals and lark thread safety are trusted; thread schedules are sampled.",
+        TB + "Partial: ==/hash congruence is discharged for the concrete cnf/dnf/_merge_single_markers/parse_marker caches on coherent markers (C18), and stack purity is proved for every taint-free run of the marker model (it is false in general: stackPure_false_in_general; calls answered by a caller's frame are outside the theorem and are counted in the real traces, 0 on the unchanged tree); a first_devrelease cache keyed by version equality is proved not to be a congruence. The marker model equals the code by C07's sampling; GIL atomicity, functools.cache internals and lark thread safety are trusted; thread schedules are sampled.",
         "DESIGN.md §4 C20",
     ),
 }
